@@ -245,7 +245,12 @@ func c13Long(w *mon.W, idx int) {
 		w.Bucket("bitmap>=500-words")
 	}
 	bm := gen.ZooBitmap(r, nw)
-	if r.Intn(3) == 0 || nw >= 500 {
+	if idx%10 == 7 {
+		bm = gen.RunBitmap(r, 60+idx%300)
+		nw = len(bm)
+		w.Bucket("bitmap/run-structured")
+	}
+	if idx%10 != 7 && (r.Intn(3) == 0 || nw >= 500) {
 		// long runs of empty words
 		for k := range bm {
 			if r.Intn(4) != 0 {
